@@ -236,6 +236,12 @@ def corruptions(rng, cls, data, quick):
             # huge counts may cost a 5 s time-out each: in the quick tier only on the first three count fields
             if quick and w in (b'99999999999', b'2147483647') and (k >= 3 or (w == b'2147483647' and k >= 1)): continue
             out.append(('count:' + w.decode(), sub(a, b, w)))
+    # the first plain integers of a file are dimensions more often than values: always corrupted, the rest is sampled
+    for k, (a, b) in enumerate(others[:8]):
+        v = int(data[a:b])
+        for w in [b'-1', b'0', b'NA', b'abc', str(v + 1).encode()] + ([b'99999999999'] if k < 2 else []):
+            out.append(('int:' + w.decode(), sub(a, b, w)))
+    others = others[8:]
     for a, b in rng.sample(others, min(len(others), 4 if quick else 30)):
         for w in rng.sample(INT_SUBST, 4 if quick else len(INT_SUBST)):
             out.append(('int:' + w.decode(), sub(a, b, w)))
